@@ -20,6 +20,7 @@ type SynthSpec struct {
 	Dups  int    `json:"dups"` // every Dups-th row repeats an earlier key (0 = none)
 	Big   int    `json:"big,omitempty"` // length of one huge cell in the last column of row 0 (needs ncols >= 2)
 	Groups int   `json:"groups,omitempty"` // >0: composite key (grp,id) with this many group values
+	PrefixGroups bool `json:"prefix_groups,omitempty"` // group values that are prefixes of one another (a, a0, a00, a000, b, a1, a9; the ids that follow are digits): joined keys order differently from column-wise ones
 	Wide   int   `json:"wide,omitempty"`   // >0: every non-key cell is padded to this length (a block of 255 such rows decodes to tens of MB)
 }
 
@@ -55,6 +56,9 @@ func (s SynthSpec) Build() (cols []string, pk []string, rows [][]string) {
 		pk = []string{"grp", "id"}
 		for i := range rows {
 			g := string(rune('A' + (i*7+int(s.Seed%5))%s.Groups))
+			if s.PrefixGroups {
+				g = []string{"a", "a0", "a00", "a000", "b", "a1", "a9"}[(i*7+int(s.Seed%5))%s.Groups%7]
+			}
 			rows[i] = append([]string{g}, rows[i]...)
 		}
 		nc++
